@@ -309,12 +309,15 @@ def _verify_cases(argtuple):
         if z3.is_true(z3.simplify(g)):
             smt2, names = None, []
         else:
-            smt2, names = S.build_query(o.pc, g, o.tag.get('probes'))
+            smt2, names = S.build_query(list(o.pc) + list(I.axioms), g, o.tag.get('probes'))
         meta.append((o, names))
         if smt2 is not None:
-            jobs.append((len(meta) - 1, smt2, names, z3_ms, cvc5_ms))
+            qf = None
+            if I.axioms or any(z3.is_quantifier(f) for f in o.pc):
+                qf, _ = S.build_query(o.pc, g, o.tag.get('probes'), drop_quantified=True)
+            jobs.append((len(meta) - 1, smt2, names, z3_ms, cvc5_ms, qf))
     for (label, what, pc) in covers:
-        smt2, names = S.build_query(pc, None, None)
+        smt2, names = S.build_query(pc, None, None, drop_quantified=True)
         meta.append((('cover', label, what), names))
         jobs.append((len(meta) - 1, smt2, names, z3_ms, cvc5_ms))
     t1 = time.time()
@@ -347,7 +350,7 @@ def _verify_cases(argtuple):
             rep.by_backend[be] += 1
         elif v == 'sat':
             rep.refuted.append({'obligation': o.name, 'kind': o.kind, 'case': o.tag.get('case'), 'site': o.site,
-                                'note': o.note, 'model': out.get('model')})
+                                'note': o.note, 'model': out.get('model'), 'weak': bool(out.get('weak'))})
         else:
             rep.undecided.append({'obligation': o.name, 'case': o.tag.get('case'), 'reason': out.get('reason'),
                                   'z3': out['z3'], 'cvc5': out['cvc5']})
